@@ -314,19 +314,26 @@ func (x *Exec) reschedule(t *thread) {
 		next := opts[idx]
 		if !selfFirst {
 			x.forced++
-			if (!x.spinOff || x.nfrozen > 0) && x.spinCheck() {
+			if (!x.spinOff || x.nfrozen > 0 || len(x.timers) > 0) && x.spinCheck() {
 				if x.nfrozen > 0 {
 					// the unfrozen threads only spin: they wait for a frozen one
 					x.unfreeze()
 					continue
 				}
-				if q := x.quiescer(); q != nil {
+				if q := x.quiescer(); q != nil && !x.spinOff {
 					// the other threads only spin: this is quiescence for the harness
 					x.quiet = true
 					x.sigSeen, x.sigStep = nil, nil
 					x.lastProg = x.steps
 					next = q
-				} else {
+				} else if q == nil && x.fireTimer() {
+					// threads that only spin let time pass: the earliest timer fires
+					// (model time otherwise advances only when nothing is enabled, and
+					// two waiters that wake each other are always enabled)
+					x.sigSeen, x.sigStep = nil, nil
+					x.lastProg = x.steps
+					continue
+				} else if !x.spinOff {
 					x.finish(Spin, t)
 					return
 				}
